@@ -205,6 +205,7 @@ pub fn run(o: &DriveOpts, out: &mut dyn Write, tid: usize) -> Value {
 
     // random part ----------------------------------------------------------------------
     let mut twin_alive = false;
+    let mut twin_is_clone = false;
     let mut pending: std::collections::VecDeque<Call> = std::collections::VecDeque::new();
     while ok && rec.events < o.steps {
         let vw = view(&w, 0);
@@ -229,6 +230,26 @@ pub fn run(o: &DriveOpts, out: &mut dyn Write, tid: usize) -> Value {
                 }
                 None => None,
             }
+        } else if profile == "slice" && r > 0.70 && !vw.present.is_empty() {
+            let v = *vw.present.choose(&mut rng).unwrap();
+            let ks = w.g(0).kids(v).unwrap_or_default();
+            let p = match rng.gen_range(0..7) {
+                0 => Pred::All,
+                1 => Pred::Nothing,
+                2 => Pred::Lt,
+                3 => Pred::LabelNe(labels.choose(&mut rng).unwrap().clone()),
+                4 => Pred::ToNe(*vw.present.choose(&mut rng).unwrap()),
+                _ => {
+                    // exclude one existing edge (of v or of a random vertex)
+                    let u = if rng.gen_bool(0.5) { v } else { *vw.present.choose(&mut rng).unwrap() };
+                    let ku = if u == v { ks.clone() } else { w.g(0).kids(u).unwrap_or_default() };
+                    match ku.choose(&mut rng) {
+                        Some((a, t)) => Pred::EdgeNe(u, *t, a.clone()),
+                        None => Pred::All,
+                    }
+                }
+            };
+            Some(Call::Slice { dst: 1, v, p })
         } else if vw.present.len() < 2 || r < 0.16 {
             // add: fresh, present (re-add) or collected ids alike
             let v = if rng.gen_bool(0.25) && !vw.present.is_empty() {
@@ -283,6 +304,8 @@ pub fn run(o: &DriveOpts, out: &mut dyn Write, tid: usize) -> Value {
                 *vw.present.choose(&mut rng).unwrap()
             };
             Some(Call::Put { v, d: datas.choose(&mut rng).unwrap().clone() })
+        } else if profile == "slice" {
+            None
         } else if r < 0.97 || !matches!(profile, "twin" | "world") {
             let v = if rng.gen_bool(0.7) && !vw.unread.is_empty() {
                 *vw.unread.choose(&mut rng).unwrap()
@@ -293,26 +316,31 @@ pub fn run(o: &DriveOpts, out: &mut dyn Write, tid: usize) -> Value {
         } else {
             // a twin: clone or save+load into handle 1, then mirrored calls
             twin_alive = true;
-            Some(if rng.gen_bool(0.5) { Call::Clone { dst: 1 } } else { Call::Reload { dst: 1 } })
+            twin_is_clone = rng.gen_bool(0.5);
+            Some(if twin_is_clone { Call::Clone { dst: 1 } } else { Call::Reload { dst: 1 } })
         };
         let Some(call) = call else { continue };
         let mirrored = twin_alive
-            && !matches!(call, Call::Clone { .. } | Call::Reload { .. })
-            && !matches!(call, Call::NextId);
+            && !matches!(call, Call::Clone { .. } | Call::Reload { .. } | Call::Slice { .. })
+            && (twin_is_clone || !matches!(call, Call::NextId));
         ok = rec.call(&mut w, HCall { h: 0, call: call.clone() });
+        if ok && mirrored {
+            rec.mirror_next = true;
+            ok = rec.call(&mut w, HCall { h: 1, call: call.clone() });
+        }
         if ok && matches!(call, Call::NextId) && rng.gen_bool(0.7) {
             // use the id just handed out (the recorder logged it; read it back from the allocator position)
             let id = w.g(0).snap().next_v - 1;
             ok = rec.call(&mut w, HCall { h: 0, call: Call::Add { v: id } });
             if ok && twin_alive {
+                rec.mirror_next = true;
                 ok = rec.call(&mut w, HCall { h: 1, call: Call::Add { v: id } });
             }
         }
-        if ok && mirrored {
-            rec.mirror_next = true;
-            ok = rec.call(&mut w, HCall { h: 1, call });
+        if ok && twin_alive && !twin_is_clone && matches!(call, Call::NextId) {
+            // a reloaded graph allocates on its own (not mirrored: its allocator restarted)
+            ok = rec.call(&mut w, HCall { h: 1, call: Call::NextId });
         }
     }
-    let _ = Pred::All;
     json!({"t": tid, "profile": o.profile, "n": o.n, "cap": o.cap, "seed": o.seed, "events": rec.events, "panicked": !ok})
 }
